@@ -19,6 +19,31 @@ pub struct TableRefresh {
     pub next_refresh: Option<Timeout>,
 }
 //@end
+// bootstrap task handle: only the published state is read by the handler
+//@begin type src/action/bootstrap.rs - enum State
+#[derive(Structural, Eq, PartialEq, Copy, Clone)]
+pub enum State {
+    AwaitStart,
+    InitialContact,
+    Bootstrapping,
+    Bootstrapped,
+    IdleBeforeRebootstrap,
+}
+//@end
+pub mod bootstrap {
+    pub use super::State;
+}
+// tokio::sync::watch stand-in: `borrow()` yields the current value, which another task may change at any time
+pub mod watch {
+    use super::*;
+    pub struct Receiver<T> { pub t: core::marker::PhantomData<T> }
+    pub uninterp spec fn val<T>(r: Receiver<T>) -> T;
+    impl<T> Receiver<T> {
+        #[verifier::external_body]
+        pub fn borrow(&self) -> (r: &T) ensures *r == val(*self) { unimplemented!() }
+    }
+}
+pub struct TableBootstrap { pub state_rx: watch::Receiver<bootstrap::State> }
 // tokio::sync::oneshot stand-in (bootstrap waiters; C15 is not claimed)
 pub mod oneshot {
     pub struct Sender<T> { pub t: core::marker::PhantomData<T> }
@@ -157,7 +182,7 @@ impl TableRefresh {
 }
 
 // ================= handler.rs =================
-//@begin type src/handler.rs - struct DhtHandler drop=running,command_rx,bootstrap,next_bootstrap_txs_id
+//@begin type src/handler.rs - struct DhtHandler drop=running,command_rx,next_bootstrap_txs_id
 pub struct DhtHandler {
     pub this_node_id: NodeId,
     pub timer: Timer<ScheduledTaskCheck>,
@@ -168,6 +193,7 @@ pub struct DhtHandler {
     pub aid_generator: AIDGenerator,
     pub routing_table: Arc<Mutex<RoutingTable>>,
     pub active_stores: AnnounceStorage,
+    pub bootstrap: TableBootstrap,
     pub bootstrap_txs: HashMap<u64, oneshot::Sender<()>>,
     pub initial_bootstrap_done: bool,
     pub pending_lookups: Vec<StartLookup>,
@@ -652,10 +678,15 @@ impl DhtHandler {
             ==> (self.timer.pending@.contains_key(k) == o.timer.pending@.contains_key(k) && (o.timer.pending@.contains_key(k) ==> self.timer.pending@[k] == o.timer.pending@[k]))
     }
 
-    /// stand-in for `*self.bootstrap.state_rx.borrow() == State::Bootstrapped` (a watch channel written by the bootstrap task)
-    pub uninterp spec fn spec_bootstrapped(&self) -> bool;
-    #[verifier::external_body]
-    pub fn is_bootstrapped(&self) -> (r: bool) ensures r == self.spec_bootstrapped() { unimplemented!() }
+    /// the bootstrap task's published state (a tokio watch channel: its value is arbitrary at every read)
+    pub open spec fn spec_bootstrapped(&self) -> bool { watch::val(self.bootstrap.state_rx) == bootstrap::State::Bootstrapped }
+//@begin fn src/handler.rs impl:DhtHandler is_bootstrapped nopub=1 props=C16
+    fn is_bootstrapped(&self) -> (r: bool)
+        ensures r == self.spec_bootstrapped(), // @C16.bootstrapped_means_state_is_bootstrapped
+    {
+        *self.bootstrap.state_rx.borrow() == bootstrap::State::Bootstrapped
+    }
+//@end
 
 //@begin fn src/handler.rs impl:DhtHandler handle_start_lookup rules=R-deasync props=C16
     pub fn handle_start_lookup(&mut self, lookup: StartLookup, Tracked(tr): Tracked<&mut Trace>)
